@@ -242,7 +242,7 @@ Definition exclude_arg (V : variant) (s : hstate) (arg : bytes) : xout hstate :=
     match create arg with
     | Ok t => xfold (fun s nm => xbind (xdelete (v_del_all V) s nm) (fun '(s', _) => XOk s'))
                     (shift_all (ranges t)) s
-    | Err _ => XOk s
+    | Err _ => XErrx        (* an exclusion that cannot be read is refused, not skipped *)
     | Fault _ => XFault EFWritePast
     end
   else xbind (xdelete (v_del_all V) s arg) (fun '(s', _) => XOk s').
@@ -307,7 +307,7 @@ Definition name_domb (nm : bytes) : bool :=
 Definition arg_domb (arg : bytes) : bool :=
   match create arg with
   | Ok t => forallb hr_ok2b (ranges t) && forallb name_domb (expand (ranges t))
-  | _ => true
+  | _ => false
   end.
 Definition domain_check (files : list (bytes * list bytes)) (items : list item) : bool :=
   match gather fixed files items with
